@@ -193,7 +193,8 @@ class IdStrStream(Stream):
                '//task.123', 'task:sel.123', 'cycle/task', '12/a', 'a.1 ', ' .1', 'a.1: ', 'a/b/c//1/t/2',
                'a/b//', 'a//b//c', 'a:b:c', 'w////c', 'w///c', '~u/w////c/t', 'w:s////c', '////c', '~u/w/', '~u:s', '~a~b', 'w// ', 'w//\n', '//c\n', '//\n']
         out = [{"id": s, "kind": "corpus"} for s in ids]
-        # the finding: legacy cycle/task with a one-character cycle is not recognised
+        # regression cases of the finding fixed in /repo 26dc1a0: legacy cycle/task with a
+        # one-character cycle was not recognised (upgrade_legacy_ids left '1/foo' unchanged)
         out.append({"id": "1/foo", "kind": "legacy", "form": "slash", "fields": ["foo", "1", None]})
         out.append({"id": "1/foo:failed", "kind": "legacy", "form": "slash", "fields": ["foo", "1", "failed"]})
         out.append({"id": "foo.1", "kind": "legacy", "form": "dot", "fields": ["foo", "1", None]})
@@ -567,13 +568,14 @@ META = {
                    "hypotheses (proved for the running CPython's tables): tokenise(detokenise(t)) = canon t (gaps become "
                    "'*', job zero padded, selectors kept only on request and down to the lowest token); valid tokens always "
                    "format; a canonical string parses and formats back to itself; Tokens.task of the parsed full id equals "
-                   "the parse of the relative id; legacy task.cycle and cycle/task (cycle >= 2 characters) ids are recognised, "
+                   "the parse of the relative id; legacy task.cycle and cycle/task ids (any valid cycle, incl. one character) are recognised, "
                    "upgraded to //cycle/task[:sel] and the new id parses to the same tokens. The parsers are compared with "
                    "the real tokenise / legacy_tokenise / upgrade_legacy_ids / detokenise inside Coq on dense generated "
                    "strings and token sets; the oracle checks the round trips, Tokens.__eq__/__hash__/duplicate and the "
                    "relative/absolute agreement directly on the implementation."),
-    "level_note": ("Partial: the cycle/task legacy form with a ONE-character cycle ('1/foo') is refuted "
-                   "(c23_legacy_slash_one_char_refuted; known finding with a one-character proposed fix). Regex backtracking "
+    "level_note": ("The cycle/task legacy form with a ONE-character cycle ('1/foo') was a finding of this check, fixed in "
+                   "/repo 26dc1a0; the full statement is now the theorem c23_legacy_slash_upgrade_full and the witness is a "
+                   "corpus regression case. Regex backtracking "
                    "is not modelled generically: Model/Id.v is a hand transcription validated per pattern by correspondence "
                    "(thorough: every string of length <= 6 over {a 1 / : ~ .}). 'Canonical string' is defined as the image "
                    "of detokenise on valid tokens. Jobs that int() accepts but that are not ASCII digit strings ('+4', "
